@@ -3,6 +3,7 @@
 R08.1 loop_progress: in LookaheadDFA::eval no path goes round the look-ahead loop (from the
       successful read of a look-ahead token back to the loop header) without assigning the
       automaton state from the to-state (field 2) of a transition.
+R08.7 a transition is followed only behind a test that *its own* from-state equals the current state (on every path).
 R08.3 every Ok(..) returned by eval derives from prod_num / last_prod_num and lies on the
       `> INVALID_PROD` (resp. `Some(last_accepting_state)`) edge; there is no default production.
 """
@@ -77,8 +78,45 @@ def check(ctx):
 
     states = find_state_local(body)
     if len(states) != 1:
+        # fall back to the local that is assigned a transition's to-state (field 2)
+        states = {p[0] for bi, si, p, rv, line, mac in body.assigns()
+                  if len(p) == 1 and rv[0] == "use" and rv[1][0] in ("c", "m")
+                  and trans_field_of(raw_place(body, rv[1][1])) == 2 and body.local_name(p[0])
+                  and any(x[0] == "assign" and x[3][0] == "use" and x[3][1][0] == "k" for x in body.defs(p[0]))}
+    if len(states) != 1:
         raise AnchorMissing("cannot identify the automaton-state local of eval (candidates: %s)" % sorted(states))
     state = states.pop()
+
+    # ---------------------------------------------------------------------------------- R08.7 (added after seed C08-b)
+    # a transition is followed only if *its own* from-state equals the current state: the assignment state := t.2 lies behind a
+    # test t.0 == state on every path, where t is the same transition
+    from .common import guards_on_all_paths
+    for bi, si, p, rv, line, mac in body.assigns():
+        if p == [state] and rv[0] == "use" and rv[1][0] in ("c", "m") and trans_field_of(raw_place(body, rv[1][1])) == 2:
+            tplace = raw_place(body, rv[1][1])
+            troot = (tplace[0], [e for e in tplace[1:] if not (isinstance(e, list) and e[0] == "f" and e[3] == TRANS)])
+            okg = False
+            for a, k, truth in guards_on_all_paths(body, bi):
+                if not k or k[0] != "bin" or k[1] not in ("Eq", "Ne"):
+                    continue
+                t = body.term(a)
+                # operands of the comparison, as raw places
+                d = [x for x in body.defs(t[1][1][0]) if x[0] == "assign"] if t[1][0] in ("c", "m") else []
+                if not d or d[0][3][0] != "bin":
+                    continue
+                ops = [d[0][3][2], d[0][3][3]]
+                rps = [raw_operand_place(body, o) for o in ops]
+                hit_from = [rp for rp in rps if rp is not None and trans_field_of(rp) == 0 and
+                            (rp[0], [e for e in rp[1:] if not (isinstance(e, list) and e[0] == "f" and e[3] == TRANS)]) == troot]
+                hit_state = [rp for rp in rps if rp is not None and rp[0] == state and len(rp) == 1]
+                eq_holds = truth if k[1] == "Eq" else not truth
+                if hit_from and hit_state and eq_holds:
+                    okg = True
+            ctx.check(okg, "R08.7", "eval|transition-belongs-to-current-state",
+                      "state := t.2 is taken only behind t.0 == state for the same transition t",
+                      "eval follows a transition (state := t.2) without a test on every path that this transition's from-state "
+                      "equals the current state: a transition of another state can be taken, a production is predicted for "
+                      "tokens none of its look-ahead strings begins with", "%s:%d" % (body.file, line))
 
     # blocks assigning state := (some Trans).2
     trans_blocks = set()
